@@ -1,4 +1,5 @@
 import NettyVerif.Proofs.Chan
+import NettyVerif.Proofs.ChanLive
 /-! # C02 — No stranded writes: accepted payloads are sent and flushed unprompted -/
 namespace NettyVerif.C02
 open NettyVerif.Chan
@@ -95,6 +96,29 @@ theorem C02_progress (sync : Bool) (cap : Nat) (untilW : Bool) (acts : List (Act
             | some x => have := hinv.owner.2 (Or.inl (by simp [hs])); simp [hrun] at this
           simp [hsn]
 
+/-- **termination**: without new client activity the framework's own steps (executor start, the
+    owner's poll / Writev / recycle / re-check / Flush / release, the released sender's re-check and
+    re-acquire, failure handling) cannot go on for ever — for every state, every queue size and any
+    number of released senders. Measure: (queue length, remaining steps of the control tokens),
+    lexicographically. -/
+theorem C02_framework_terminates : WellFounded (FwStep (α := α)) := fw_wellFounded
+
+/-- **eventually flushed**: from any reachable state of a healthy channel in which every write call
+    has returned, let the framework run (any order, executor start delayed arbitrarily) until none
+    of its steps is enabled — which must happen, by termination: then the queue and the batch are
+    empty, every accepted payload is on the wire, and everything on the wire is flushed. Nothing
+    stays parked waiting for a later write. -/
+theorem C02_eventually_flushed (sync : Bool) (cap : Nat) (untilW : Bool) (acts fw : List (Act α)) (s s' : St α)
+    (hr : run (init sync cap untilW) acts = some s) (hd : s.clientsDone)
+    (hfw : ∀ a ∈ fw, a.frameworkOk = true) (hr' : run s fw = some s')
+    (hmax : ∀ a : Act α, a.frameworkOk = true → step s' a = none) :
+    s'.q = [] ∧ s'.batch = [] ∧ s'.wire = s'.accepted ∧ s'.flushed = s'.accepted.length := by
+  have hrun : run (init sync cap untilW) (acts ++ fw) = some s' := by rw [run_append, hr]; simpa using hr'
+  have hd' := fwOk_run_preserves fw s s' hfw hr' hd
+  have hinv := inv_run (acts ++ fw) _ s' (inv_init sync cap untilW) hrun
+  have hq := stuck_is_quiescent s' hinv hd' hmax
+  exact C02_quiescent_clean sync cap untilW (acts ++ fw) s' hrun hd'.2.2.2.2 hq
+
 /-- the lost-wake-up mutant (sender exits right after `Store idle`, no re-check) strands a packet:
     negation witness on the model without the double check -/
 def stepNoRecheck (s : St Nat) : Act Nat → Option (St Nat)
@@ -118,3 +142,5 @@ end NettyVerif.C02
 #print axioms NettyVerif.C02.C02_quiescent_clean
 #print axioms NettyVerif.C02.C02_progress
 #print axioms NettyVerif.C02.C02_recheck_is_necessary
+#print axioms NettyVerif.C02.C02_framework_terminates
+#print axioms NettyVerif.C02.C02_eventually_flushed
